@@ -125,7 +125,7 @@ Qed.
 
 (* all blocks end at or below n *)
 Definition live_ok (n : N) (e : N * N) : Prop :=
-  let '(o, r) := e in 0 < r /\ r + 7 < W64 /\ 8 <= o /\ o mod 8 = 0 /\ o + block_cap r <= n.
+  let '(o, r) := e in 0 < r /\ r < W63 /\ 8 <= o /\ o mod 8 = 0 /\ o + block_cap r <= n.
 Definition bin_ok (n c o : N) : Prop := 8 <= o /\ o mod 8 = 0 /\ o + c <= n.
 Fixpoint bins_ok (n : N) (sizes : list N) (bs : list (list N)) : Prop :=
   match sizes, bs with
